@@ -480,3 +480,59 @@ def validate_traces(events):
         return verdicts, summary[0], {"generated": r["generated"], "distinct": r["distinct"]}
     finally:
         shutil.rmtree(d, ignore_errors=True)
+
+
+# ------------------------------------------------------------------ the Set action on symbolic (SymPy) vectors
+def sympy_setters():
+    """ObjectSM's Set action on the SymPy backend: for every coordinate system, flavor and settable name (all spellings) the
+    assigned symbol reads back exactly, the partner coordinate of the group keeps its value, the stored coordinates of
+    the other groups are the very same expressions, class and identity are kept."""
+    import sympy
+    from . import sympyx
+
+    recs, calls = [], 0
+    point4 = [mpf("1.1"), mpf("-2.2"), mpf("3.3"), mpf("10.5")]
+    newval = {"x": mpf("0.7"), "y": mpf("-1.3"), "rho": mpf("2.5"), "phi": mpf("0.4"), "z": mpf("-0.9"), "theta": mpf("1.9"),
+              "eta": mpf("0.35"), "t": mpf("12.25"), "tau": mpf("4.5")}
+    for n in (2, 3, 4):
+        for sig in coords.signatures(n):
+            for flavor in ("generic", "momentum"):
+                names = [nm for nm in SYN if GROUP_OF[nm] in (["az"] + (["lon"] if n > 2 else []) + (["tmp"] if n > 3 else []))]
+                for name in names:
+                    for attr in (SYN[name] if flavor == "momentum" else SYN[name][:1]):
+                        v, syms = sympyx.sym_vector("a", sig, flavor, by_keywords=(len(attr) % 2 == 0))
+                        base = {"op": f"set:{attr}", "tag": "objsm-sympy", "sig": [sig, None], "flavor": flavor}
+                        point = dict(zip(syms, coords.store(point4[:n], sig)))
+                        new = sympy.Symbol("new_value", real=True)
+                        point[new] = newval[name]
+
+                        def ev(expr):
+                            f = sympy.lambdify(list(point), sympy.sympify(expr), modules="mpmath")
+                            r = f(*point.values())
+                            return mpf(r.real) if isinstance(r, mpmath.mpc) else mpf(r)
+
+                        before = groups(v)
+                        partner = PARTNER.get(name)
+                        pval = ev(getattr(v, partner)) if partner else None
+                        ident, klass = id(v), type(v)
+                        calls += 1
+                        try:
+                            setattr(v, attr, new)
+                            got = getattr(v, attr)
+                            if sympy.sympify(got) != new:
+                                recs.append(dict(base, kind="assigned-value-not-read-back", got=str(got)[:100]))
+                            if sympy.sympify(getattr(v, name)) != new:
+                                recs.append(dict(base, kind="assigned-value-not-read-back", attr=name, got=str(getattr(v, name))[:100]))
+                            after = groups(v)
+                            for g in after:
+                                if g != GROUP_OF[name] and not (type(after[g]) is type(before[g]) and tuple(after[g].elements) == tuple(before[g].elements)):
+                                    recs.append(dict(base, kind="other-group-changed", group=g, got=repr(after[g])[:120], want=repr(before[g])[:120]))
+                            if set(after) != set(before) or type(v) is not klass or id(v) != ident:
+                                recs.append(dict(base, kind="class-changed", got=type(v).__name__, want=klass.__name__))
+                            if partner:
+                                p2 = ev(getattr(v, partner))
+                                if not close_num(p2, pval, mpf(10) ** -35, angle=(partner == "phi")):
+                                    recs.append(dict(base, kind="partner-changed", partner=partner, got=mpmath.nstr(p2, 25), want=mpmath.nstr(pval, 25)))
+                        except Exception as ex:
+                            recs.append(dict(base, kind="exception", error=f"{type(ex).__name__}: {ex}"[:300]))
+    return recs, calls
